@@ -680,8 +680,8 @@ func (m *Memory) writeDb(rLocked bool) {
 	l := len(times)
 	m.SavePending.Add(-int32(l))
 
-	// fork
-	go func() {
+	// fork, unless the caller waits for the records (Sync)
+	write := func() {
 		if rLocked {
 			defer m.syncMx.RUnlock()
 		}
@@ -742,7 +742,12 @@ func (m *Memory) writeDb(rLocked bool) {
 		// stats
 		all := m.Saved.Add(uint64(l))
 		m.log("saved %d records (total %d)", l, all)
-	}()
+	}
+	if rLocked {
+		go write()
+	} else {
+		write()
+	}
 }
 
 func (m *Memory) checkGc() {
